@@ -277,6 +277,9 @@ func pipeline(env *Env, chk *Check, res *Result, cases []Case, open map[string]F
 	env.Logf("TLC validated %d traces against %s: %d states, %d rejected steps", len(traces), chk.TraceModule, st.Distinct, len(bad))
 	badCases := map[string][]Bad{}
 	for _, b := range bad {
+		if strings.HasPrefix(b.Why, "harness:") { // the trace specification found the input of the case inconsistent
+			return nil, 2, MachineryError{fmt.Sprintf("case %s event %d: %s", b.Case, b.Ev, b.Why)}
+		}
 		if strings.HasPrefix(b.Why, "diag:") {
 			if len(res.Notes) < 20 {
 				res.Notes = append(res.Notes, fmt.Sprintf("divergence %s at case %s event %d (diagnostic, not a property clause)", b.Why, b.Case, b.Ev))
